@@ -42,7 +42,7 @@ PROPS = {
     },
     "C10": {
         "level": "other",
-        "explanation": "Narrow claim on five mechanisms, each decided by a Verus contract on real text. (1) Runtime::check_timeout answers the Timeout violation exactly when the configured deadline is not after the clock reading it takes (with V-tail, claimed under C07/C08, proving that the trampoline performs this check before any frame of a user function is built: once the time limit has elapsed no further user-function call begins). (2) With a search limit configured the search budget is a FINITE stream ending in a violation, so every loop that draws one item per step and stops at the violation terminates within the limit. (3) The numeric loop of `digits` terminates (decreases |n|, proved) and its divisions are defined. (4) Two internally iterating adaptors of XGenerator::_iter: the Chain arm hands flat_map a lazy iterator for each part (no call that needs the part to be finite -- `collect` does), and every call of the step function of the Repeat arm terminates (decreases clause), an empty generator repeating to the empty stream. (5) The index natives combination, combination_with_replacement and permutation: their loops run for up to n resp. k*k steps for usize arguments; every iteration first draws one permit of the call's search budget (ghost iteration counter == permits drawn, proved as a loop invariant on the real text), so with a search limit L a call ends within L iterations or in MaximumSearch, and the loops terminate without one (decreases clauses). NOT decided: that every native loop and every other internally iterating adaptor (group, windows, product, skip over a huge count, multinom) draws on the budget or is otherwise bounded -- a claim about all natives, listed as unreached.",
+        "explanation": "Narrow claim on six mechanisms, each decided by a Verus contract on real text. (1) Runtime::check_timeout answers the Timeout violation exactly when the configured deadline is not after the clock reading it takes (with V-tail, claimed under C07/C08, proving that the trampoline performs this check before any frame of a user function is built: once the time limit has elapsed no further user-function call begins). (2) With a search limit configured the search budget is a FINITE stream ending in a violation, so every loop that draws one item per step and stops at the violation terminates within the limit. (3) The numeric loop of `digits` terminates (decreases |n|, proved) and its divisions are defined. (4) Two internally iterating adaptors of XGenerator::_iter: the Chain arm hands flat_map a lazy iterator for each part (no call that needs the part to be finite -- `collect` does), and every call of the step function of the Repeat arm terminates (decreases clause), an empty generator repeating to the empty stream. (1) is now decided under this property too: unit V-tail (the trampoline draws on the call limit and checks the timeout before it builds a frame). (6) The Windows and Group arms of XGenerator::_iter draw one permit of their own search budget for every element they buffer (units V-gwindows, V-ggroup: the step closures' contracts), so filling a window or a group of an endless generator ends in MaximumSearch. (5) The index natives combination, combination_with_replacement and permutation: their loops run for up to n resp. k*k steps for usize arguments; every iteration first draws one permit of the call's search budget (ghost iteration counter == permits drawn, proved as a loop invariant on the real text), so with a search limit L a call ends within L iterations or in MaximumSearch, and the loops terminate without one (decreases clauses). NOT decided: that every native loop and every other internally iterating adaptor (group, windows, product, skip over a huge count, multinom) draws on the budget or is otherwise bounded -- a claim about all natives, listed as unreached.",
         "units": [
             {"kind": "verus", "unit": "timeout"},
             {"kind": "verus", "unit": "budgetfin"},
@@ -52,10 +52,13 @@ PROPS = {
             {"kind": "verus", "unit": "grepeatarm"},
             {"kind": "verus", "unit": "comb"},
             {"kind": "verus", "unit": "permut"},
+            {"kind": "verus", "unit": "tail"},
+            {"kind": "verus", "unit": "gwindows"},
+            {"kind": "verus", "unit": "ggroup"},
         ],
         "unreached": [
             "that each searching / iterating native consumes one budget item per unit of work (under contract: the unranking loops of combination / combination_with_replacement / permutation here, the scan loops of sequence take_while / skip_until under C08/C15)",
-            "adaptors that iterate internally other than Chain / Repeat: group, windows, product, and `skip(n)` for a huge n on an endless generator built from a sequence (seen by probing: count(0).to_generator().skip(10**12).take(1) keeps the interpreter busy under any search limit -- the budget is drawn per element the OUTERMOST iterator yields; no contract here decides it); binom / multinom loops (range-bounded `for` loops; multinom not under contract)",
+            "adaptors that iterate internally other than Chain / Repeat / Windows / Group: product, and `skip(n)` for a huge n on an endless generator built from a sequence (seen by probing: count(0).to_generator().skip(10**12).take(1) keeps the interpreter busy under any search limit -- the budget is drawn per element the OUTERMOST iterator yields; no contract here decides it); binom / multinom loops (range-bounded `for` loops; multinom not under contract)",
             "further runaway natives seen by probing the documented natives with extreme arguments under finite limits, not under contract: floor_root / ceil_root with a huge root (written in the language on top of pow and bisect)",
             "the proportionality (complexity) part of the statement: no contract here bounds the amount of work, only termination of the loops listed",
         ],
